@@ -216,6 +216,7 @@ GROUPS = {
     "fmt": ("GenFmt.v", "TieFmt.v", ["tie_fields"]),
     "load": ("GenLoad.v", "TieLoad.v", ["tie_read_offline"]),
     "selector": ("GenSelector.v", "TieSelector.v", ["tie_selector"]),
+    "times": ("GenTimes.v", "TieTimes.v", ["tie_region_start", "tie_region_duration", "tie_region_end", "tie_make_region_args"]),
     "div": ("GenDiv.v", "TieDiv.v", ["tie_div_loop", "tie_div"]),
     "guards": ("GenGuards.v", "TieGuards.v", ["tie_join_guard", "tie_record_flag"]),
     "reader": ("GenReader.v", "TieReader.v", ["tie_reader_params", "tie_lim_read", "tie_rec_read", "tie_fixed_read", "tie_ov_first", "tie_ov_next"]),
@@ -1509,7 +1510,120 @@ def gen_div(repo):
     return "\n".join(out)
 
 
-GENERATORS = {"div": gen_div, "guards": gen_guards, "selector": gen_selector, "load": gen_load, "reader": gen_reader, "loops": gen_loops, "savers": gen_savers, "fsrc": gen_fsrc, "algebra": gen_algebra, "split": gen_split, "dur": gen_dur, "region": gen_region, "silence": gen_silence, "buf": gen_buf, "fmt": gen_fmt}
+# ---------------------------------------------------------------- region times (start / duration / end)
+
+def gen_times(repo):
+    """the arithmetic that gives a region its start, duration and end: _make_audio_region's start (start_frame * frame_duration),
+    AudioReader.block_dur (the frame duration split() passes), AudioRegion.__post_init__'s duration and end, and the argument
+    split() passes as frame_duration"""
+    core = ast.parse(open(os.path.join(repo, "auditok", "core.py")).read())
+    util = ast.parse(open(os.path.join(repo, "auditok", "util.py")).read())
+    out = list(HEADER)
+    out[3] = "From AV Require Import Base.PyList Base.PyFloat Tok.Model Split.Split."
+
+    class Sub(ast.NodeTransformer):
+        def __init__(self, mp):
+            self.mp = mp
+
+        def visit_Attribute(self, n):
+            src = ast.unparse(n)
+            if src in self.mp:
+                return ast.copy_location(ast.Name(id=self.mp[src], ctx=ast.Load()), n)
+            return self.generic_visit(n)
+
+        def visit_Call(self, n):
+            src = ast.unparse(n)
+            if src in self.mp:
+                return ast.copy_location(ast.Name(id=self.mp[src], ctx=ast.Load()), n)
+            return self.generic_visit(n)
+
+    def synth(name, params, expr_node, mp):
+        e = Sub(mp).visit(ast.parse(ast.unparse(expr_node), mode="eval").body)
+        f = ast.parse("def %s(%s):\n    return 0" % (name, ", ".join(p for p, _ in params))).body[0]
+        f.body = [ast.Return(value=e)]
+        return ast.fix_missing_locations(f)
+
+    def ret_f(tr, v, env, node):
+        if v.ty != "F":
+            bad(node, "expected a float, got %s" % v.ty)
+        return v.text
+    # (1) _make_audio_region: the value bound to `start`, passed as the region's start
+    mk = find_function(core, "_make_audio_region")
+    params = [a.arg for a in mk.args.args]
+    if params != ["data_frames", "start_frame", "frame_duration", "sampling_rate", "sample_width", "channels"]:
+        raise TranslationError("_make_audio_region signature changed: %r" % params)
+    rets = [x for x in ast.walk(mk) if isinstance(x, ast.Return)]
+    if len(rets) != 1 or not (isinstance(rets[0].value, ast.Call) and ast.unparse(rets[0].value.func) == "AudioRegion"):
+        raise TranslationError("_make_audio_region must return one AudioRegion(...)")
+    call = rets[0].value
+    argmap = {}
+    for nm, a in zip(["data", "sampling_rate", "sample_width", "channels", "start"], call.args):
+        argmap[nm] = a
+    for k in call.keywords:
+        argmap[k.arg] = k.value
+    if "start" not in argmap:
+        raise TranslationError("_make_audio_region does not pass a start time")
+    defs = {x.targets[0].id: x.value for x in mk.body if isinstance(x, ast.Assign) and len(x.targets) == 1 and isinstance(x.targets[0], ast.Name)}
+    start_expr = argmap["start"]
+    if isinstance(start_expr, ast.Name) and start_expr.id in defs:
+        start_expr = defs[start_expr.id]
+    for nm, want in (("sampling_rate", "sampling_rate"), ("sample_width", "sample_width"), ("channels", "channels")):
+        if ast.unparse(argmap.get(nm, ast.Constant(value=None))) != want:
+            raise TranslationError("_make_audio_region does not pass %s through" % nm)
+    sp = Spec("start_gen", [("start_frame", "Z"), ("frame_duration", "F")], ret_f); sp.ret_type = "f64"
+    out.append(Pure(synth("start_slice", sp.params, start_expr, {}), sp, module=None).translate())
+    # (2) AudioReader.block_dur
+    bd = find_property(util, "AudioReader", "block_dur", "getter")
+    rets = [x for x in ast.walk(bd) if isinstance(x, ast.Return)]
+    if len(rets) != 1:
+        raise TranslationError("AudioReader.block_dur: one return expected")
+    sp = Spec("block_dur_gen", [("block_size", "Z"), ("sr", "Z")], ret_f); sp.ret_type = "f64"
+    out.append(Pure(synth("block_dur_slice", sp.params, rets[0].value, {"self._audio_source.block_size": "block_size", "self.block_size": "block_size",
+                                                                         "self._audio_source.sr": "sr", "self.sr": "sr", "self._audio_source.sampling_rate": "sr", "self.sampling_rate": "sr"}), sp, module=None).translate())
+    # (3) AudioRegion.__post_init__: duration and end
+    cls = next(n for n in core.body if isinstance(n, ast.ClassDef) and n.name == "AudioRegion")
+    pi = next((n for n in cls.body if isinstance(n, ast.FunctionDef) and n.name == "__post_init__"), None)
+    if pi is None:
+        raise TranslationError("AudioRegion.__post_init__ not found")
+    sets = {}
+    for x in ast.walk(pi):
+        if isinstance(x, ast.Call) and ast.unparse(x.func) == "object.__setattr__" and len(x.args) == 3 and isinstance(x.args[1], ast.Constant):
+            sets.setdefault(x.args[1].value, []).append(x.args[2])
+    ldefs = {x.targets[0].id: x.value for x in ast.walk(pi) if isinstance(x, ast.Assign) and len(x.targets) == 1 and isinstance(x.targets[0], ast.Name)}
+    if len(sets.get("duration", [])) != 1:
+        raise TranslationError("__post_init__ must set duration exactly once")
+    dur = sets["duration"][0]
+    if isinstance(dur, ast.Name) and dur.id in ldefs:
+        dur = ldefs[dur.id]
+    ends = [e for e in sets.get("end", []) if not (isinstance(e, ast.Constant) and e.value is None)]
+    if len(ends) != 1:
+        raise TranslationError("__post_init__ must set a non-None end exactly once")
+    sp = Spec("duration_gen", [("nbytes", "Z"), ("sampling_rate", "Z"), ("sample_width", "Z"), ("channels", "Z")], ret_f); sp.ret_type = "f64"
+    out.append(Pure(synth("duration_slice", sp.params, dur, {"len(self.data)": "nbytes", "len(self._data)": "nbytes", "self.sampling_rate": "sampling_rate", "self.sr": "sampling_rate",
+                                                            "self.sample_width": "sample_width", "self.sw": "sample_width", "self.channels": "channels", "self.ch": "channels"}), sp, module=None).translate())
+    sp = Spec("end_gen", [("start", "F"), ("duration", "F")], ret_f); sp.ret_type = "f64"
+    out.append(Pure(synth("end_slice", sp.params, ends[0], {"self.start": "start", "self.duration": "duration"}), sp, module=None).translate())
+    # (4) what split() passes to _make_audio_region
+    sp_fn = find_function(core, "split")
+    calls = [x for x in ast.walk(sp_fn) if isinstance(x, ast.Call) and isinstance(x.func, ast.Name) and x.func.id == "_make_audio_region"]
+    if len(calls) != 1 or calls[0].keywords or len(calls[0].args) != 6:
+        raise TranslationError("split() must call _make_audio_region(...) once with six positional arguments")
+    args = [ast.unparse(a) for a in calls[0].args]
+    gen = [g for g in ast.walk(sp_fn) if isinstance(g, ast.GeneratorExp) and calls[0] in list(ast.walk(g))]
+    tokvar = ast.unparse(gen[0].generators[0].target) if gen else "token"
+    norm = [a.replace(tokvar, "token") for a in args]
+    # the reader is called `source` in the pinned source; any single name is accepted
+    names = {n.id for a in calls[0].args[2:] for n in ast.walk(a) if isinstance(n, ast.Name)}
+    if len(names) == 1:
+        rd = names.pop()
+        norm = [a.replace(rd + ".", "source.") for a in norm]
+    out.append("Open Scope string_scope.")
+    out.append("Definition make_region_args_gen : list String.string := [%s]." % "; ".join('"%s"' % a for a in norm))
+    out[1] = "From Coq Require Import ZArith List Bool String."
+    return "\n".join(out)
+
+
+GENERATORS = {"times": gen_times, "div": gen_div, "guards": gen_guards, "selector": gen_selector, "load": gen_load, "reader": gen_reader, "loops": gen_loops, "savers": gen_savers, "fsrc": gen_fsrc, "algebra": gen_algebra, "split": gen_split, "dur": gen_dur, "region": gen_region, "silence": gen_silence, "buf": gen_buf, "fmt": gen_fmt}
 
 
 def emit_group(repo, group):
